@@ -6,7 +6,7 @@ the check is a function of NEAREST and of per-project sets, hence independent of
 the shared memo `cache` only ever holds correct answers.  That is the invariant CacheOK proved here."""
 import os
 from pyvc.dsl import (contract, invariant, inline, ite, is_tuple, is_none, is_int, is_str, is_instance, forall_int,
-                      exists_int, uf, old, klass, field)
+                      exists_int, uf, old, klass, field, same_value)
 
 MD = "kconfcheck.check_deprecated_options"
 
@@ -43,17 +43,17 @@ class C__is_project_root:
         return result == ISROOT(directory)
 
     def ensures_nearest_definition(directory, result):
-        return NEAREST(directory) == nearest_unfold(directory)
+        return same_value(NEAREST(directory), nearest_unfold(directory))
 
 
 def cache_ok(cache):
     """every memoised answer is the right one"""
-    return all(cache[k] == NEAREST(k) for k in cache)
+    return all(same_value(cache[k], NEAREST(k)) for k in cache)
 
 
 def chain_ok(checked, path):
     """every directory walked so far has the same nearest project root as the directory now being looked at"""
-    return all(NEAREST(d) == NEAREST(path) for d in checked)
+    return all(same_value(NEAREST(d), NEAREST(path)) for d in checked)
 
 
 @contract(MD, "_find_project_root", params=["path", "cache"], param_types={"path": "str", "cache": "dict"})
@@ -63,19 +63,19 @@ class C__find_project_root:
 
     def loop_inv_0(path, checked, cache, path_entry):
         return (is_str(path) and cache_ok(cache) and chain_ok(checked, path)
-                and NEAREST(path) == NEAREST(os.path.abspath(path_entry)))
+                and same_value(NEAREST(path), NEAREST(os.path.abspath(path_entry))))
 
     def loop_inv_1(cache, checked, result, path):
-        return cache_ok(cache) and all(NEAREST(d) == result for d in checked)
+        return cache_ok(cache) and all(same_value(NEAREST(d), result) for d in checked)
 
     def loop_inv_2(cache, checked, path):
-        return cache_ok(cache) and all(NEAREST(d) == path for d in checked)
+        return cache_ok(cache) and all(same_value(NEAREST(d), path) for d in checked)
 
     def loop_inv_3(cache, checked):
-        return cache_ok(cache) and all(NEAREST(d) is None for d in checked)
+        return cache_ok(cache) and all(same_value(NEAREST(d), None) for d in checked)
 
     def ensures_value(path, cache, result):
-        return result == NEAREST(os.path.abspath(path))
+        return same_value(result, NEAREST(os.path.abspath(path)))
 
     def ensures_cache_ok(path, cache, result):
         return cache_ok(cache)
